@@ -1,7 +1,11 @@
 #!/usr/bin/env python3
-"""C06 mutation driver (scratch).  usage: mut.py [--real] [--gotest] [names...]
-default: scratch copy under /var/tmp/c06mut (does not touch /repo); harness + model diff.
---real: mutate /repo/lib/interval/interval.go, run ./check C06, restore.
+"""C06 mutation driver (scratch).  usage: selftest_mutants.py [--gotest] [--list] [--orig] [names...]
+Works on a scratch copy of /repo and /verif/harness under /var/tmp/c06mut (created on demand, never
+touches /repo): for each mutant of lib/interval/interval.go it builds the harness against the copy,
+runs it (quick tier) and diffs the implementation's answers with the Lean model driver.
+A mutant is caught when nfail > 0 (the property's oracle: failing input) or mismatch > 0.
+(The full verdict, incl. the regenerated Gen/C06_Tables.lean obligation, is
+`VERIF_REPO=<copy> ./check C06`.)  Remove /var/tmp/c06mut when done.
 """
 import json, os, subprocess, sys, shutil, time
 
@@ -53,6 +57,21 @@ m("h6-ormax-drop-and-ymax", "\tj.And(j, x[1])\n\tj.And(j, y[1])\n", "\tj.And(j, 
 m("h7-andmax-return-min", "\tif j.Cmp(k) < 0 {\n\t\treturn k\n\t}\n\treturn j", "\tif j.Cmp(k) > 0 {\n\t\treturn k\n\t}\n\treturn j")
 m("h8-andneg-noninf-mask-non1", "w := andBothNonNeg(biasedNeg, IntRange{non[0], mask})\n\t\treturn IntRange{w[0], nil}", "w := andBothNonNeg(biasedNeg, IntRange{non[0], mask})\n\t\treturn IntRange{w[0], w[1]}")
 m("h9-inplaceunite-lo-cmp", "\t\t} else if x[0].Cmp(y[0]) > 0 {\n\t\t\tx[0].Set(y[0])", "\t\t} else if x[0].Cmp(y[0]) >= 0 {\n\t\t\tx[0] = y[0]")
+
+
+# round 2: machine-word boundaries, table, helper shortcuts
+m("w1-quo-int64-fastpath", "func bigIntQuo(i *big.Int, j *big.Int) *big.Int { return big.NewInt(0).Quo(i, j) }", "func bigIntQuo(i *big.Int, j *big.Int) *big.Int {\n\tif i.IsInt64() && j.IsInt64() {\n\t\treturn big.NewInt(i.Int64() / j.Int64())\n\t}\n\treturn big.NewInt(0).Quo(i, j)\n}")
+m("w2-mul-int33-fastpath", "func bigIntMul(i *big.Int, j *big.Int) *big.Int { return big.NewInt(0).Mul(i, j) }", "func bigIntMul(i *big.Int, j *big.Int) *big.Int {\n\tif i.IsInt64() && j.IsInt64() {\n\t\ta, b := i.Int64(), j.Int64()\n\t\tif -1<<32 <= a && a <= 1<<32 && -1<<32 <= b && b <= 1<<32 {\n\t\t\treturn big.NewInt(a * b)\n\t\t}\n\t}\n\treturn big.NewInt(0).Mul(i, j)\n}")
+m("w3-lsh-uint64-fastpath", "\t\tif u := j.Uint64(); u <= 0xFFFFFFFF {\n\t\t\treturn big.NewInt(0).Lsh(i, uint(u))", "\t\tif u := j.Uint64(); u <= 0xFFFFFFFF {\n\t\t\tif i.IsUint64() && u < 64 {\n\t\t\t\treturn big.NewInt(0).SetUint64(i.Uint64() << u)\n\t\t\t}\n\t\t\treturn big.NewInt(0).Lsh(i, uint(u))")
+m("w4-rsh-int64-fastpath", "\t\tif u := j.Uint64(); u <= 0xFFFFFFFF {\n\t\t\treturn big.NewInt(0).Rsh(i, uint(u))", "\t\tif u := j.Uint64(); u <= 0xFFFFFFFF {\n\t\t\tif i.IsInt64() {\n\t\t\t\treturn big.NewInt(i.Int64() >> (u & 63))\n\t\t\t}\n\t\t\treturn big.NewInt(0).Rsh(i, uint(u))")
+m("w5-bitmask-table-16", "\tbig.NewInt(0xFF),\n}", "\tbig.NewInt(0xFF),\n\tbig.NewInt(0x1FF),\n\tbig.NewInt(0x3FF),\n\tbig.NewInt(0x7FF),\n\tbig.NewInt(0xFFF),\n\tbig.NewInt(0x1FFF),\n\tbig.NewInt(0x3FFF),\n\tbig.NewInt(0x7FFF),\n\tbig.NewInt(0xFFFE),\n}")
+m("w6-bitmask-int64", "\tz := big.NewInt(1)\n\tz = z.Lsh(z, uint(n))\n\tz = z.Sub(z, one)\n\treturn z", "\tif n <= 64 {\n\t\treturn big.NewInt(int64(1)<<uint(n) - 1)\n\t}\n\tz := big.NewInt(1)\n\tz = z.Lsh(z, uint(n))\n\tz = z.Sub(z, one)\n\treturn z")
+m("w7-bfr-uint64", "\tn := i.BitLen()\n\tif n > 0xFFFF {", "\tif i.IsUint64() {\n\t\tv := i.Uint64()\n\t\tv |= v >> 1\n\t\tv |= v >> 2\n\t\tv |= v >> 4\n\t\tv |= v >> 8\n\t\tv |= v >> 16\n\t\ti.SetUint64(v)\n\t\treturn\n\t}\n\tn := i.BitLen()\n\tif n > 0xFFFF {")
+m("w8-add-int64", "\tif x[0] != nil && y[0] != nil {\n\t\tz[0] = big.NewInt(0).Add(x[0], y[0])", "\tif x[0] != nil && y[0] != nil {\n\t\tif x[0].IsInt64() && y[0].IsInt64() {\n\t\t\tz[0] = big.NewInt(x[0].Int64() + y[0].Int64())\n\t\t} else {\n\t\t\tz[0] = big.NewInt(0).Add(x[0], y[0])\n\t\t}")
+m("w9-justzero-int32", "return x[0] != nil && x[1] != nil && x[0].Sign() == 0 && x[1].Sign() == 0", "return x[0] != nil && x[1] != nil && x[0].Sign() == 0 && x[1].IsInt64() && int32(x[1].Int64()) == 0")
+m("w10-rsh-threshold", "func bigIntRsh(i *big.Int, j *big.Int) *big.Int {\n\tif j.IsUint64() {\n\t\tif u := j.Uint64(); u <= 0xFFFFFFFF {", "func bigIntRsh(i *big.Int, j *big.Int) *big.Int {\n\tif j.IsUint64() {\n\t\tif u := j.Uint64(); u <= 0xFFFFFFFF {\n\t\t\tu &= 0x7FFFFFFF")
+m("w11-lowermin-uint64-as-int64", "(x[0].extra == 0 && y.extra == 0 && x[0].i.Cmp(y.i) > 0) {", "(x[0].extra == 0 && y.extra == 0 && (x[0].i.IsUint64() && y.i.IsUint64() && int64(x[0].i.Uint64()) > int64(y.i.Uint64()) || !(x[0].i.IsUint64() && y.i.IsUint64()) && x[0].i.Cmp(y.i) > 0)) {")
+m("w12-sub-neg-int64", "\t\tz[1] = big.NewInt(0).Sub(x[1], y[0])", "\t\tz[1] = big.NewInt(0).Sub(x[1], y[0])\n\t\tif y[0].IsInt64() && x[1].Sign() == 0 {\n\t\t\tz[1].SetInt64(-y[0].Int64())\n\t\t}")
 
 
 def mutate(edits):
@@ -117,25 +136,19 @@ def scratch_run(name, src, gotest, tier="quick", seed="1"):
     return res
 
 
-def real_run(name, src):
-    res = {}
-    try:
-        open("/repo/lib/interval/interval.go", "w").write(src)
-        rc, out = sh(["./check", "C06"], "/verif", timeout=3000)
-        res["check_rc"] = rc
-        res["check"] = out.strip().split("\n")
-        rp = "/verif/replay/C06"
-        if os.path.isdir(rp):
-            for f in os.listdir(rp):
-                res["replay:" + f] = open(os.path.join(rp, f)).read()[:600]
-    finally:
-        shutil.copy(ORIG, "/repo/lib/interval/interval.go")
-    return res
+def setup():
+    """scratch copies of /repo (without .git, test data) and of /verif/harness, wired together"""
+    os.makedirs(S, exist_ok=True)
+    sh(["rsync", "-a", "--delete", "--exclude", ".git", "--exclude", "test/3pdata", "--exclude", "test/data", "/repo/", S + "/repo/"], "/")
+    sh(["rsync", "-a", "--delete", "--exclude", "bin", "/verif/harness/", S + "/harness/"], "/")
+    gm = open(S + "/harness/go.mod").read().replace("=> /repo", "=> " + S + "/repo")
+    open(S + "/harness/go.mod", "w").write(gm)
+    shutil.copy("/repo/lib/interval/interval.go", ORIG)
 
 
 def main():
     args = sys.argv[1:]
-    real = "--real" in args
+    setup()
     gotest = "--gotest" in args
     names = [a for a in args if not a.startswith("--")]
     sel = [x for x in M if not names or any(x[0].startswith(n) for n in names)]
@@ -149,7 +162,7 @@ def main():
         return
     for name, edits in sel:
         src = mutate(edits)
-        r = real_run(name, src) if real else scratch_run(name, src, gotest)
+        r = scratch_run(name, src, gotest)
         print("=== " + name)
         for k, v in r.items():
             print("   %s: %s" % (k, v))
